@@ -2681,6 +2681,12 @@ def r107(ctx: Ctx) -> RuleReport:
     rep = RuleReport('R107', r107.title, floor=1)
     fi = ctx.repo.func('penman.constant', 'evaluate')
     p = fi.positional[0]
+    from ..resolve import local_callees as _lc3
+    for f_ in _lc3(ctx, fi, depth=2):
+        if any(isinstance(n, ast.Raise) and n.exc is not None and 'unbalanced' in norm(n.exc).lower() for n in walk_local(f_.node)):
+            fi = f_
+            p = f_.positional[0] if f_.positional else p
+            break
     raises = [n for n in walk_local(fi.node) if isinstance(n, ast.Raise) and n.exc is not None and 'unbalanced' in norm(n.exc).lower()]
     pm = ctx.repo.parent_map(fi.node)
     if not raises:
